@@ -54,6 +54,14 @@ func loadBaseFuncs(path string) {
 	for k := range m {
 		baseFuncs[k] = true
 	}
+	// the local names of every function of the base tree (funclocals.base.json beside the hashes): a local that is new relative to
+	// them and merely names a pure expression is substituted away in a changed function (aliases.go)
+	if lb, err := os.ReadFile(filepath.Join(filepath.Dir(path), "funclocals.base.json")); err == nil {
+		l := map[string][]string{}
+		if json.Unmarshal(lb, &l) == nil {
+			baseLocals = l
+		}
+	}
 }
 
 func packageInfo(rel string) *pkgInfo {
@@ -663,6 +671,12 @@ func normaliseChanged(rel string, orig, fd *ast.FuncDecl) *ast.FuncDecl {
 	}
 	c := f.Decls[0].(*ast.FuncDecl)
 	before := printNode(c)
+	if nc := substituteNewAliases(funcKey(rel, orig), c); nc != nil {
+		c = nc
+	}
+	splitMinBounds(c)
+	expandSlicesEqualPrefix(c)
+	splitSingleExit(c)
 	rewriteChains(c.Body.List)
 	earlyContinue(c.Body)
 	after := printNode(c)
